@@ -67,7 +67,11 @@ Oracles (independent of the Coq model and of the code under test; all walk point
     ``sibling_oracle(tree)``  C03: no two children of one parent with equal data_id
     ``refusal_oracle(step)``  C13: after a library refusal the observable state is unchanged
     ``effect_oracle(step)``   C04: documented effect + frame condition (see `Spec` below)
-Generators: ``gen_exhaustive(nmax, ...)`` (every single op with every argument on every forest <= nmax
+``run_group(group, oracles)`` replays one exhaustive group (setup + every alternative) and returns
+``(coq term CAlts, observation, [Run])``; ``first(iterable)``; ``World`` (rel/raw/live_node/obs...) is the
+implementation side of a running history (use ``replay(..., keep_world=True).world`` to probe the live trees
+after a history, e.g. for C02 lookups or C07 independence checks); ``execute(world, op)`` runs one op.
+Generators: ``gen_shapes(shapes, ...)`` (explicit deeper shapes, EXTRA_SHAPES), ``gen_exhaustive(nmax, ...)`` (every single op with every argument on every forest <= nmax
 nodes, as (setup, alternatives) groups), ``gen_random(rng, n_ops, ...)`` (mostly-valid histories),
 ``gen_malformed(rng, n_ops)`` (invalid `before`, colliding ids, foreign targets, moves into the own
 branch; removed nodes are never referenced).  ``shrink_candidates(hist)``: drop ops, drop setup nodes.
